@@ -241,7 +241,7 @@ func (d *segmentationDescriptor) SetHasNoRegionalBlackout(value bool) {
 
 // SetDeviceRestrictions sets which device group the segment is restriced to, this field has no meaning if delivery is not restricted.
 func (d *segmentationDescriptor) SetDeviceRestrictions(value DeviceRestrictions) {
-	d.deviceRestrictions = value
+	d.deviceRestrictions = value & 0x03 // device_restrictions is a 2 bit field
 }
 
 // SetMID sets multiple UPIDs, only works if UPIDType is SegUPIDMID
